@@ -8,11 +8,15 @@ Case kinds
        order of its segments = the rotations of the ascending order, C12.rotations), a frame of cycles (range/mean or
        from/to), 1-2 successive targets, through HaighDiagram.transform (+ plain functions / accessors in the oracle)
   frm  per-element parameter FRAME with different rows (Goodman / five-segment incl. different R12/R23; optionally surplus rows with
-       break points of their own = ignored, or a missing row = refused; frame per (element, node) or per element only) and a collective
+       break points of their own = ignored (five-segment with element-wise R12/R23: only since /repo eb02d01, before it KeyError:
+       Interval(...), finding five-segment-surplus-diagram - a label of the record only, a recurrence is reported as a plain
+       KeyError violation), or a missing row = refused; frame per (element, node) or per element only = layout `subkey`) and a collective
        whose index carries the element key (named index, (key, cycle_number) MultiIndex in any level order, unsorted
        rows, two-level keys) through df.meanstress_transform.*; compared label by label.  Optional fields: `surplus`
        = parameter rows no cycle refers to (ignored by the code, same result demanded), `drop` = the parameter row of
-       one key removed (refused with ValueError 'No Haigh diagram' since /repo 226f5ce; oracle only, no model line)
+       one key removed (refused with ValueError 'No Haigh diagram' since /repo 226f5ce; oracle only, no model line).
+       In the oracle every `frm` case (also the refused one) is run a second time against a MATRIX with one class per cycle
+       (`oracle_frm_matrix`, HaighDiagram.<kind>(frame).transform(matrix))
   mat  rainflow matrix (from/to or range/mean classes, 0-2 further index levels in ANY level order, rows optionally
        sparse / shuffled, uniform or non-uniform class widths) through series.meanstress_transform.fkm_goodman with a
        parameter Series, a per-key parameter frame (different rows), a frame over a subset of the further levels or a
@@ -501,10 +505,14 @@ class C12(Prop):
             "R = -inf, amplitudes 1e-6..1e6, targets R down to 1+1e-3 (cycles reach R of about 1.002) and mean/amplitude up to 1e6): model and HaighDiagram.transform must give "
             "bit-identical range/mean/amplitude for every cycle; "
             "case 'frm' = collective whose index carries an element key (named index | (key, cycle_number) in any level order | unsorted rows | "
-            "two-level keys) + parameter FRAME with a different row per key (Goodman with/without M2, five-segment with different R12/R23) "
+            "two-level keys | layout 'subkey': cycles indexed by (element_id, node, cycle_number), one parameter row per element_id) + parameter "
+            "FRAME with a different row per key (Goodman with/without M2, five-segment with different R12/R23) "
             "through df.meanstress_transform.*: every result row, found by its label, must be bit-identical to the model run with that key's parameters; "
-            "'frm' / 'mat' cases may carry surplus parameter rows no cycle refers to (ignored: same demand) or lack the row of a key (no model "
-            "line; oracle only: refused with ValueError 'No Haigh diagram', /repo 226f5ce); "
+            "'frm' / 'mat' cases may carry surplus parameter rows no cycle refers to (ignored: same demand; five-segment surplus rows have break "
+            "points R12 / R23 of their own, which no diagram in use has - ignored since /repo eb02d01, KeyError before it) or lack the row of a key (no model "
+            "line; oracle only: refused with ValueError 'No Haigh diagram', /repo 226f5ce); in the oracle every 'frm' case also takes the matrix "
+            "route: HaighDiagram.<kind>(frame).transform of a matrix with one class per cycle = each key's classes with that key's diagram alone, bit for bit "
+            "(a case with a missing row: refused there as well); "
             "case 'mat' = rainflow matrix (from/to or range/mean classes, 0-2 further levels in any level order, sparse / shuffled rows, "
             "non-uniform widths; parameter Series | per-key frame with different rows | frame over a subset of the levels | frame with a level "
             "of its own) through series.meanstress_transform.fkm_goodman: same number of classes and bit-identical class sums PER KEY of the "
@@ -539,7 +547,10 @@ class C12(Prop):
         "C12: LoadHistogram.R still computes lower / upper without the '+ 0.0' of LoadCollective.R (c28a67e): upper = mean + amplitude is -0.0 only "
         "if both summands are -0.0, i.e. never for amplitude > 0, so the model's cycR (either zero counts as +0.0) agrees with it on the quantifier",
         "C12: since 226f5ce a collective / matrix key without a row in the parameter frame is refused (ValueError 'No Haigh diagram'; checked by "
-        "the oracle, no model counterpart) and surplus parameter rows are ignored (generated); five_segment is called with an unnamed parameter "
+        "the oracle, no model counterpart) and surplus parameter rows are ignored (generated; for a five-segment frame with element-wise R12 / R23 "
+        "and a surplus row with break points of its own this holds only since eb02d01 - 226f5ce alone raised KeyError: Interval(...), finding "
+        "five-segment-surplus-diagram, which has no class label in the oracle: a recurrence shows as a plain KeyError violation); "
+        "five_segment is called with an unnamed parameter "
         "Series or a frame with integer / tuple labels - a Series with a name (KeyError: 0 from haigh.xs(0)), a string label of a one-level index "
         "and an empty frame raise in the unchanged code and are not generated",
     ]
@@ -1216,7 +1227,9 @@ class C12(Prop):
 
     def oracle_frm(self, case):
         """Collective with an element key + parameter frame with a different row per key: every result row, looked up by its
-        label, = the plain function with that key's parameters (bit-identical), = specification; operands unchanged."""
+        label, = the plain function with that key's parameters (bit-identical), = specification; operands unchanged.
+        A case whose frame lacks the row of a key (`drop`) must be refused instead (ValueError 'No Haigh diagram').
+        Either way the case ends in the matrix route (`oracle_frm_matrix`)."""
         M = mst()
         g = dec(case["goal"])
         df, par, labels = frm_frames(case)
@@ -1262,7 +1275,9 @@ class C12(Prop):
     def oracle_frm_matrix(self, case, par, g):
         """The same parameter frame against a MATRIX (histogram route): one class per cycle, index (range, mean, key levels) in the
         case's level order.  HaighDiagram.<kind>(frame).transform(matrix) = each key's classes transformed with that key's diagram alone
-        (same class intervals, hence bit-identical); Goodman additionally through the matrix accessor (cycles conserved per key)."""
+        (same class intervals, hence bit-identical).  Only HaighDiagram.transform is called here, for Goodman and five-segment alike; the
+        matrix accessor series.meanstress_transform.fkm_goodman and the conservation of the cycles per key belong to the 'mat' cases
+        (`oracle_mat`).  A case with a missing row (`drop`) must be refused here as well."""
         M = mst()
         knames = frm_key_names(case)
         rows, keyvals = [], []
